@@ -2,6 +2,7 @@ import TrionModel.Lemmas.Scope
 import TrionModel.Lemmas.ScopePanic
 import TrionModel.Lemmas.ScopeFrame
 import TrionModel.Lemmas.ScopeRun
+import TrionModel.Lemmas.ScopeRetry
 /-!
 # C14 — constant visibility follows file scope
 
@@ -591,6 +592,72 @@ theorem isolation_resolve {s s' : State} {ctx : List (Nat × Body)} (hw : ∀ p 
   · rw [h1] at hlog; cases hlog
     exact isolation_chain_init hw hr n v (by rw [hvis]; exact hv')
 
+/-! ## isolation — the RETRIES of a `.du32` (stage 1: the end of its file; stage 2: the includer's end / `finalize`)
+
+`isolation_resolve` covers the value a `.du32 n` writes at once (stage 0).  A `.du32 n` whose name is not yet valued is
+queued as a local task and retried when its file ends (stage 1); still unvalued, it is rescheduled into the includer's
+list and retried once more when the INCLUDER's file ends — or, from the root file, by `finalize` (stage 2).
+`Lemmas/ScopeRetry.lean`: a task never touches the table it reads; a cached value is one `u32::try_from` refused, in
+every reachable state (`CInv`), so a retry that writes a value has just read it from the table. -/
+
+/-- C14.reachable (cached values)  In every state reachable from `Context::new()` every queued `.du32` that carries a
+cached value — in `global_tasks`, `local_tasks` or a list saved in a live `PathFrame` — caches a value out of `u32` range. -/
+theorem reachable_cinv {ops : List Op} {s : State} (h : run init ops = .ok s) : CInv s :=
+  run_cinv ops cinv_init h
+
+/-- C14.isolation (retries, the end of a file)  At any position of a project started from `Context::new()` — files `ctx`
+open one inside the other — let the current file end (`exit`: after a clean body, or after a trivial or fatal failure).
+Everything this adds to the log is a diagnostic, or a value `v` written by the retry of a `.du32 n` statement `tag` of the
+file's task list: at stage 1 if it was queued by the file itself, at stage 2 if an included file rescheduled it.  In both
+cases the chain condition `Lic n v [] ctx` holds FOR THE FILE BEING LEFT: the retry resolves `n` in that file's own table,
+so `n = v` reached it only via `.import` edges upwards and `.export`/`.global` edges downwards to a definition `n = v`. -/
+theorem isolation_retry_exit {s s' : State} {ctx : List (Nat × Body)} (hw : ∀ p ∈ ctx, p.2.wf) (hne : ctx ≠ [])
+    (hr : Reach init ctx s) (hm : s.mode = .running ∨ ∃ l, s.mode = .stopped l 0) (h : step s .exit = .ok s') :
+    ∃ ts add, s.localTasks = some ts ∧ s'.log = add ++ s.log ∧ ∀ e ∈ add, (∃ tag k, e = .diag tag k) ∨
+      ∃ n tag g v, Task.use n none tag g ∈ ts ∧ e = .value tag v (if g then 2 else 1) ∧ Lic n v [] ctx := by
+  have hi := reach_inv inv_init ctx hr
+  have hc := reach_cinv cinv_init ctx hr
+  have hf : s.frames ≠ [] := by
+    rcases (reach_lic inv_init rfl [] 0 ctx hw hr).1 with h1 | h1
+    · exact absurd h1 hne
+    · exact h1
+  have hd : s.depth ≠ 0 := by
+    rw [hi.depth]; intro h0; exact hf (List.eq_nil_of_length_eq_zero h0)
+  obtain ⟨l, hl⟩ := Option.isSome_iff_exists.1 (hi.inFile hf).locals
+  obtain ⟨ts, hts⟩ := Option.isSome_iff_exists.1 (hi.inFile hf).ltasks
+  have hvis : visible s = l := by simp [visible, hl]
+  have hex : ∃ res, exitFile s res = .ok s' := by
+    rcases hm with hm | ⟨lv, hm⟩
+    · exact ⟨none, by simpa only [step, hm] using h⟩
+    · exact ⟨some lv, by simpa only [step, hm] using h⟩
+  obtain ⟨res, hex⟩ := hex
+  obtain ⟨add, hadd, hev⟩ := exit_retried hd hl hts hex
+  refine ⟨ts, add, hts, hadd, fun e he => ?_⟩
+  rcases (hev e he).resolved (hc.l ts hts) with hdg | ⟨n, tag, g, v, hmem, hval, hfind⟩
+  · exact .inl hdg
+  · exact .inr ⟨n, tag, g, v, hmem, hval, isolation_chain_init hw hr n v (by rw [hvis]; exact hfind)⟩
+
+/-- C14.isolation (retries, `finalize`)  Outside any file, in a state reached from `Context::new()`: before its verdict
+`finalize` adds to the log only diagnostics and the values of `.du32 n` statements rescheduled into the real global list,
+each resolved in the GLOBAL table — whose valued entries come from `.export`/`.global` chains of the root files
+(`isolation_include_root`). -/
+theorem isolation_retry_finalize {ops : List Op} {s s' : State} (hrun : run init ops = .ok s) (hd : s.depth = 0)
+    (hm : s.mode = .running) (h : step s .finalize = .ok s') :
+    ∃ add b, s'.log = .done b :: (add ++ s.log) ∧ ∀ e ∈ add, (∃ tag k, e = .diag tag k) ∨
+      ∃ n tag v, Task.use n none tag true ∈ s.globalTasks ∧ e = .value tag v 2 ∧
+        s.globals.find n = some (some v) := by
+  have hi := reachable_inv hrun
+  have hc := reachable_cinv hrun
+  have hfin : finalize s = .ok s' := by simpa only [step, hm] using h
+  obtain ⟨add, b, hlog, hev⟩ := finalize_retried hi hd hfin
+  refine ⟨add, b, hlog, fun e he => ?_⟩
+  rcases (hev e he).resolved hc.g with hdg | ⟨n, tag, g, v, hmem, hval, hfind⟩
+  · exact .inl hdg
+  · have hgu := hi.vis.bot (by rw [← hi.depth, hd]; exact Nat.zero_le _) _ hmem
+    cases g with
+    | false => exact hgu.elim
+    | true => exact .inr ⟨n, tag, v, hmem, hval, hfind⟩
+
 /-! ## non-vacuity -/
 
 /-- the names of the register file are reserved, case-insensitively; ordinary names are not -/
@@ -683,5 +750,12 @@ example : Reach init [(5, childPre), (0, rootPre)]
       · have h : y = x := h
         exact absurd h (by decide)
       · exact h
+
+/-- the retries are not vacuous: the child's `.du32 x` is written at stage 1 once the child defined `x` later in the same
+file; the child's `.du32 y` (with `y` imported while the includer has only announced it) at stage 2, by the includer's
+task loop, after the includer defined `y` below the `.include` -/
+example : (run init [.enter 0, .global y 9, .enter 1, .use x 2, .import y 8, .use y 3, .const x 7 4, .exit,
+      .const y 5 5, .exit, .finalize]).toOption.map (·.log.reverse) =
+    some [.value 2 7 1, .value 3 5 2, .done true] := by decide
 
 end Trion.Scope
